@@ -31,6 +31,7 @@ from typing import Dict, List, Optional, Set
 from .. import flow
 from ..cfg import cfg_of
 from ..model import UNKNOWN, AnchorError, Func, UnknownIdiom, short
+from . import c18 as _c18
 from .c17_helpers import (BOTH, OUT_EVENTS, STATES, WS, WSModel, fold_local, local_defs, possible, single_return_expr)
 from .common import implied, single, strip_await, walk_self
 
@@ -165,6 +166,54 @@ def r1_operations(run):
         raise AnchorError('no call of the raw ASGI receive reachable from the receive_* methods')
     for fq in recv_funcs:
         _receive_disconnect(run, model, p.func(fq))
+    # accept/close: the promised state is entered on the normal continuation of the send only
+    for f in ops:
+        if f.name in ('accept', 'close'):
+            _state_follows_completed_send(run, model, f)
+
+
+def _state_follows_completed_send(run, model: WSModel, f: Func):
+    """accept()/close(): the write of ACCEPTED/CLOSED is not reachable through an exceptional edge out of the
+    send of the websocket.accept/websocket.close event (not in a finally/except covering the send).
+
+    Lemma: state ACCEPTED => the accept event was handed to the server without error; state CLOSED (client still
+    connected) => the close event was.  A send that raised delivered nothing: the caller (the error handlers'
+    fallback close) must still be able to close.  A write that is reachable from the failed send only through a
+    test or a class-specific except clause is a classification of the server error the model does not decide
+    (-> unknown idiom); reachable unconditionally (finally, catch-all) is a violation."""
+    p = run.project
+    cfg = cfg_of(f, p)
+    promised, etype = ('ACCEPTED', 'websocket.accept') if f.name == 'accept' else ('CLOSED', 'websocket.close')
+    emit = model.emit_nodes(f, etype)
+    if not emit:
+        raise AnchorError('%s: no statement through which the %s event is sent' % (f.qual, etype))
+    emit_asts = {id(cfg.node(e).ast) for e in emit}
+    writes = [s for s in model.state_write_stmts(f, promised) if id(s) not in emit_asts]
+    if not writes:
+        r = model.analyse(f, ('HANDSHAKE' if f.name == 'accept' else 'ACCEPTED', False))
+        if r.exits and all(s == promised or (d and f.name == 'close') for (s, d) in r.exits):
+            raise UnknownIdiom('%s: the state %s is reached, but not through an assignment in %s() or in a method it calls '
+                               'after the send' % (f.qual, promised, f.name))
+        return  # the post-state obligation above already reports the missing write
+    starts = [y for e in emit for (y, l) in cfg.succ[e] if l == 'exc']
+    conditional = [n.id for n in cfg.live_nodes()
+                   if n.kind == 'test' or (n.kind == 'handler' and not _catches_exception(n))]
+    for w in writes:
+        wn = [i for i in cfg.nodes_for(w) if i in cfg.reachable_ids]
+        path = flow.find_path(cfg, starts, wn, avoid_nodes=emit)
+        if path is not None and promised == 'CLOSED' and flow.find_path(cfg, starts, wn, avoid_nodes=set(emit) | set(conditional)) is None:
+            raise UnknownIdiom('%s: %s is reachable from a failed send of the close event only under a condition (%s); '
+                               'classification of server errors in close() is not modelled' % (
+                                   f.qual, short(w), ' / '.join(flow.describe_path(cfg, path)[:4])))
+        run.check(path is None,
+                  '%s(): the state becomes %s only on the normal continuation of the send of the %s event '
+                  '(never through an exceptional edge out of the send)' % (f.name, promised, etype), f, w,
+                  witness=flow.describe_path(cfg, [e for e in emit if (path[0], 'exc') in cfg.succ[e]][:1] + path) if path else None,
+                  runtime_witness=('the server\'s send() raises for the websocket.close event (e.g. "invalid close code"): the socket is '
+                                   'marked CLOSED although nothing was delivered, the fallback close of the error handler is a silent '
+                                   'no-op and the client never receives a close') if promised == 'CLOSED' else
+                                  'the server\'s send() raises for websocket.accept: the socket claims to be ACCEPTED, later sends go out on a '
+                                  'connection that was never accepted')
 
 
 def _receive_disconnect(run, model: WSModel, f: Func):
@@ -430,8 +479,17 @@ def _one_def(f: Func, e):
 
 
 def r3_always_closed(run):
+    r3_session_paths(run)
+    _r3_close_codes(run)
+
+
+def r3_session_paths(run):
+    """Every framework path that ends a WebSocket session passes a completed ``ws.close()``: after the responder,
+    through the except arm -> _handle_exception(ws=...) -> the registered default handlers.  Shared with C18 (R5):
+    ``close()`` is the only caller of the receive pump's ``stop()`` (C18 R4), so a path that skips it - also one that
+    skips it only when the socket already reports ``closed`` / not ``ready``, which is the case as soon as the CLIENT
+    side is gone - leaves the pump task running.  Tests on properties of the socket are non-deterministic here."""
     p = run.project
-    model = _model(run)
     f = p.func(HANDLE_WS)
     cfg = cfg_of(f, p)
     run.use_cfg(cfg)
@@ -546,9 +604,23 @@ def r3_always_closed(run):
             raise UnknownIdiom('%s: default handler without a ws parameter' % h.qual)
         resp_param, exc_param = hp[1], hp[2]
         path, hc, closing = _always_closes(p, h, 'ws', resp_param)
-        run.check(path is None, '%s: with resp=None and a socket, every normal return follows a completed ws.close()' % h.name, h,
+        run.check(path is None, '%s: with resp=None and a socket, every normal return follows a completed ws.close() '
+                                '(whatever the socket\'s closed/ready properties say: close() is also what stops the receive pump)' % h.name, h,
                   '%s ws-branch closes' % h.name, witness=flow.describe_path(hc, path) if path else None,
-                  runtime_witness='an exception of type %s in a WebSocket responder leaves the connection open' % (excq or '?').rsplit('.', 1)[-1])
+                  runtime_witness='an exception of type %s in a WebSocket responder leaves the connection open '
+                                  '(or, with the client already gone and a full receive queue, the pump task running)' % (excq or '?').rsplit('.', 1)[-1])
+
+
+def _r3_close_codes(run):
+    """code mapping of the default handlers; unrouted -> 3404, no responder -> 3405"""
+    p = run.project
+    model = _model(run)
+    for (excq, h) in _registered_handlers(p):
+        hp = [a for a in h.params() if a != 'self']
+        if 'ws' not in hp or len(hp) < 4:
+            raise UnknownIdiom('%s: default handler without a ws parameter' % h.qual)
+        resp_param, exc_param = hp[1], hp[2]
+        _path, hc, closing = _always_closes(p, h, 'ws', resp_param)
         # code mapping
         is_http = excq is not None and (p.is_subclass(excq, 'falcon.http_error.HTTPError') is True or p.is_subclass(excq, 'falcon.http_status.HTTPStatus') is True)
         for nid in closing:
@@ -1082,3 +1154,5 @@ def check(run):
     run.rule('R3', r3_always_closed, 'close after the responder, exceptions reach the ws-aware handlers, handlers close, code mapping', floor=20)
     run.rule('R4', r4_close_codes, 'close-code partition and reason gate', floor=9)
     run.rule('R5', r5_payload_types, 'payload type checks', floor=11)
+    run.rule('R6', _c18.disconnect_flag_prompt, 'the receive pump raises the client_disconnected flag before it suspends again after pulling the '
+                                                'disconnect (nothing is sent after the connection is lost; pump context shared with C18 R3)', floor=1)
